@@ -52,7 +52,7 @@ RULE = (
     "and decoded; the sequence must be 1..n. Non-trivial: chart with >=2 jobs "
     "and >=2 machines carrying bars; animation with n >= 100."
 )
-BUDGET = {"quick": 100, "thorough": 400}
+BUDGET = {"quick": 100, "thorough": 800}
 ASSUMPTIONS = [
     "bars are read from matplotlib PolyCollections (broken_barh); the Agg backend is used",
     "axis-limit clause asserted only for a positive limit (matplotlib widens the degenerate interval [0, 0] itself)",
@@ -289,8 +289,21 @@ def decode(frame):
     a = np.asarray(frame).astype(float)
     if a.ndim == 3:
         a = a[..., :3].mean(axis=2)
+    # rows: ignore black padding rows at the bottom
+    rows = np.where(a.max(axis=1) >= 128)[0]
+    if len(rows) == 0:
+        return None
+    a = a[: rows[-1] + 1]
     mid = a[a.shape[0] // 2]
-    dark = np.where(mid < 128)[0]
+    is_dark = mid < 128
+    # the video writer pads frames to a multiple of 16 pixels with black at
+    # the right / bottom: ignore a dark run that touches the right border
+    end = len(is_dark)
+    while end > 0 and is_dark[end - 1]:
+        end -= 1
+    if end < len(is_dark) and end > 0:
+        is_dark = is_dark[:end]
+    dark = np.where(is_dark)[0]
     if len(dark) == 0:
         return None
     lo, hi = dark[0], dark[-1] + 1
